@@ -27,6 +27,14 @@ def setup_objects(run, world_spec):
     contextvars.Context().run(go)
 
 
+def apply_poke(run, td):
+    """A state flip of shared objects through their non-public ``_poke`` (outside any contracted call)."""
+    for oname, flags in sorted(td["poke"].items()):
+        o = run.world.objects.get(oname)
+        if o is not None:
+            o._poke(flags)
+
+
 def switch_signature(log):
     """The actor-switch sequence of a run (log projected to the actor column, runs collapsed)."""
     sig = []
@@ -78,6 +86,9 @@ def sequential_verdicts_loop(world_spec, tickets):
     async def main():
         loop = asyncio.get_running_loop()
         for td in tickets:
+            if "poke" in td:
+                apply_poke(run, td)
+                continue
             t = loop.create_task(one(td), name="seq", context=contextvars.Context())
             await t
 
@@ -94,6 +105,9 @@ def sequential_verdicts_sync(world_spec, tickets):
         run.call(td)
 
     for td in tickets:
+        if "poke" in td:
+            apply_poke(run, td)
+            continue
         contextvars.Context().run(one, td)
     return run
 
